@@ -406,7 +406,7 @@ func writeSources(path string, srcs []*Source) error {
 
 // ---------------------------------------------------------------- ccompile
 
-var gccErrRE = regexp.MustCompile(`(?m)^(?:\./)?p(\d+)\.c:(\d+):\d+: (?:fatal )?error: (.*)$`)
+var gccErrRE = regexp.MustCompile(`(?m)^(?:[^\s:]*/)?p(\d+)\.c:(\d+):\d+: (?:fatal )?error: (.*)$`)
 
 func (r *runner) gcc(tu string, extra ...string) (bool, string) {
 	args := append([]string{"-fsyntax-only", "-Werror=implicit-function-declaration"}, extra...)
@@ -575,7 +575,7 @@ func (r *runner) compileGroup(cdir, name string, ids []int) (map[int]*Failure, e
 				}
 			}
 			bad[id] = &Failure{Stage: stCCompile, Outcome: "rejected", Msg: msg + " | " + lineText,
-				Stack: trimStack(se1), Key: "ccompile:" + gccMsgClass(msg) + ":" + msgClass(strings.ReplaceAll(lineText, "_", ""))}
+				Stack: trimStack(se1), Key: "ccompile:" + gccMsgClass(msg) + ":" + baseIdent(lineText)}
 		}
 		if len(rest) == len(cur) {
 			return nil, fmt.Errorf("gcc rejects a unit but every named program compiles alone: %s", firstLine(se))
@@ -583,6 +583,19 @@ func (r *runner) compileGroup(cdir, name string, ids []int) (map[int]*Failure, e
 		cur = rest
 	}
 	return bad, nil
+}
+
+var baseIdentRE = regexp.MustCompile(`(?i)wuffs_(?:base|private_impl)__[a-z0-9_]+`)
+var digitsRE = regexp.MustCompile(`[0-9]+`)
+
+// baseIdent: the first identifier of the base library on the rejected C line,
+// digits abstracted (u8 / u16 / ... are one defect).
+func baseIdent(line string) string {
+	m := baseIdentRE.FindString(line)
+	if m == "" {
+		return "none"
+	}
+	return digitsRE.ReplaceAllString(m, "N")
 }
 
 var quotedRE = regexp.MustCompile("['‘’`][^'‘’`]*['‘’`]")
